@@ -172,7 +172,7 @@ def tlc(module, cfg=None, workdir=None, env=None, workers="auto", timeout=600, s
         for f in SPEC.glob("*.cfg"):
             shutil.copy(f, workdir / f.name)
     cfg = cfg or module
-    jopts = ["-Xss1g", f"-Xmx{heap_mb}m", "-XX:+UseParallelGC"]
+    jopts = ["-Xss1g", f"-Xmx{heap_mb}m", "-XX:+UseParallelGC", "-XX:-UseGCOverheadLimit"]
     if dfs:
         jopts.append("-Dtlc2.tool.queue.IStateQueue=StateDeque")
     argv = ["java"] + jopts + ["-cp", TLA_CP, "tlc2.TLC", "-config", f"{cfg}.cfg",
